@@ -197,7 +197,8 @@ class CFG:
     return [n for n in self.nodes if pred(n)]
 
   def reachable(self, starts: Iterable[int], blocked: set[int] = frozenset(),
-                skip_labels: set[str] = frozenset()) -> set[int]:
+                skip_labels: set[str] = frozenset(),
+                blocked_edges: set = frozenset()) -> set[int]:
     seen = set()
     stack = [s for s in starts if s not in blocked]
     while stack:
@@ -206,11 +207,15 @@ class CFG:
         continue
       seen.add(x)
       for d, lab in self.succ[x]:
-        if lab in skip_labels:
+        if lab in skip_labels or (x, lab) in blocked_edges:
           continue
         if d not in blocked and d not in seen:
           stack.append(d)
     return seen
+
+  def guarded_by(self, start: int, use: int, safe_edges: set) -> bool:
+    """True iff every path start -> use takes one of the (node, label) edges."""
+    return use not in self.reachable([start], blocked_edges=safe_edges)
 
   def every_path_passes(self, src: int, dst: int, via: set[int],
                         skip_labels: set[str] = frozenset()) -> bool:
